@@ -76,7 +76,7 @@ theorem erase_destroys_exactly {v : Vec} {es : List Elem} (h : VarInv v es) (ht 
 /-- The element-wise relocation path of the offset-table locator does **not** have the property: erasing a small
     element in front of a larger non-trivial one move-constructs the larger one onto storage that still holds its own
     live source objects.  (`uint32` count, `VaryingSize<std::string>`; 32-byte strings; elements with 1 and 3 strings.) -/
-def stringTy : TyFlags := ⟨false, false, false, false, false, false, false, false⟩
+def stringTy : TyFlags := ⟨false, false, false, false, false, false, false, false, false⟩
 def witnessPs : List Param := [⟨.plain, 4, 4, {}⟩, ⟨.varying, 32, 8, stringTy⟩]
 def witnessOps : List VOp := [.emplace [[1], [5]], .emplace [[3], [6, 7, 8]], .erase 0]
 
